@@ -180,7 +180,7 @@ pub fn suites() -> Vec<Suite> {
             head_len: HEAD_LEN,
             op_len: OP_LEN,
             max_ops: 40,
-            quick_cases: 4_000,
+            quick_cases: 16_000,
             thorough_cases: 400_000,
             run,
             direct: Some(direct_with::<C03Oracle>),
@@ -193,7 +193,7 @@ pub fn suites() -> Vec<Suite> {
             head_len: HEAD_LEN,
             op_len: OP_LEN,
             max_ops: 30,
-            quick_cases: 2_000,
+            quick_cases: 8_000,
             thorough_cases: 200_000,
             run: run_hostile,
             direct: Some(direct_with::<C03Oracle>),
